@@ -10,11 +10,11 @@ PROP = "C18"
 GENERATED = ['OpSemantics', 'ParserTables']  # generated files this check's tie depends on
 LEAN_MODULES = ["Properties.C18"]
 RULE = (
-    "corpus; exhaustive expression trees with <=2 operator nodes over atoms {a, b, 2, 3} and operators + - * // ** Min Max ISqrt Group "
+    "corpus; exhaustive expression trees with <=2 operator nodes over atoms {a, b, 0, 1, 2, 3} and operators + - * // ** Min Max ISqrt Group "
     "(every nesting on either side), seeded random trees to depth 6 (thorough: <=3 nodes exhaustive, depth 8); scopes with small values so "
     "that powers stay computable; operands ConstantAxis / AnonymousAxis for the TypeError clause. non-trivial = distinct tree with >=2 operator nodes"
 )
-ATOMS = ["a", "b", "2", "3"]
+ATOMS = ["a", "b", "1", "2", "3", "0"]
 OPS2 = ["add", "sub", "mul", "div", "exp", "min", "max"]
 OPS1 = ["isqrt", "grp"]
 SCOPES = ["a:2;b:3", "a:5;b:2", "a:1;b:4"]
@@ -117,15 +117,28 @@ def cases(tier, rng, run):
         if feasible(t, sc):
             out.append(Case(f"SYM\t{t}\t{sc}", "rand"))
     # arithmetic on constant / anonymous axes must be refused
-    for o in ["add", "sub", "mul", "div", "exp"]:
-        for bad in ["const(k,3)", "anon(batch)", "anon()"]:
+    for bad in ["const(k,3)", "anon(batch)", "anon()"]:
+        for o in ["add", "sub", "mul", "div", "exp", "min", "max"]:
             for other in ["a", "2", "add(a,b)"]:
                 out.append(Case(f"SYM\t{o}({other},{bad})\ta:2;b:3", "badoperand"))
                 out.append(Case(f"SYM\t{o}({bad},{other})\ta:2;b:3", "badoperand"))
+        for o in ["isqrt", "grp"]:
+            # (a Group or a function around the axis must not launder it into an operand)
+            out.append(Case(f"SYM\t{o}({bad})\ta:2;b:3", "badoperand"))
+            out.append(Case(f"SYM\tadd(a,{o}({bad}))\ta:2;b:3", "badoperand"))
+            out.append(Case(f"SYM\tmul({o}({bad}),2)\ta:2;b:3", "badoperand"))
+    # whole shapes: several entries, markers, constant axes; the annotation built from Shape[...] must be the one built
+    # from the printed string (compared with the model's parse of the model's print)
+    entries = ["a", "b", "3", "...", "anon(batch)", "const(k,3)", "add(a,1)", "mul(a,b)", "min(a,b)", "grp(sub(a,1))", "isqrt(a)", "div(a,2)"]
+    for _ in range(1500 if tier == "quick" else 20000):
+        k = rng.randint(1, 4)
+        out.append(Case("SYMSHAPE\t" + ";".join(rng.choice(entries) for _ in range(k)), "shape"))
     return out
 
 
 def judge(case, impl_out, spec):
+    if case.tag == "shape":
+        return None
     if case.tag == "badoperand" or "const(" in case.line or "anon(" in case.line:
         if impl_out != "printerr TypeError":
             return "arithmetic on a constant / anonymous axis is not refused with TypeError: " + impl_out
